@@ -47,6 +47,40 @@ CLAIMS = {
               "SimpleSequence (mark applied by every node, restart = get_end_id/set_last_id); assumes the request that "
               "carries a new mark commits and that Raft applies in the same order everywhere; u64 overflow out of scope"),
         technique="Lean 4 theorem (invariants by induction over op sequences) + differential correspondence"),
+    "C16": dict(
+        category="proof",
+        text=("Theorems (lean/RNacos/Props/C16.lean): for EVERY request path - not only registered routes - whose "
+              "router-visible form (percent-decoding as actix does it) contains /nacos/ or /rnacos/v1/ in any letter "
+              "case and is not one of the property's exceptions, the middleware answers 403 unless the token resolves to "
+              "a session, whatever the carrier (http_guarded, http_guarded_raw, http_pass_needs_session, "
+              "token_carrier_order); the code's IGNORE_PATH grants nothing beyond the property's exceptions "
+              "(ignore_within_exceptions, kernel-evaluated over the regenerated table); for ANY gRPC type string outside "
+              "server/health check and the cluster types a missing session gives 403 (grpc_refused_without_session), "
+              "cluster types need the cluster token when configured (cluster_requests_need_token). Tie: tables "
+              "re-extracted by the translator each run + correspondence sweep of endpoints x spellings x carriers x "
+              "token values through the real ApiCheckAuth/app_config and InvokerHandler::handle in-process; the oracle "
+              "rejects any non-exempt data endpoint reached without a valid token (this found and fixed a real "
+              "percent-encoding bypass)."),
+        note=("trusted: Lean kernel; translator (recognised shapes only, fails loudly otherwise); hand model "
+              "RNacos/Model/Auth.lean incl. actix_router requote; gRPC fill_token_session modelled but not executed; "
+              "main.rs wiring of the middleware not executed; token expiry represented by an expired cache entry"),
+        technique="Lean 4 theorem over generated tables + differential correspondence sweep"),
+    "C17": dict(
+        category="proof",
+        text=("Theorems (lean/RNacos/Props/C17.lean), table theorems closed by kernel evaluation over the whole "
+              "regenerated route/grant tables: every registered console API route outside the login exceptions is "
+              "refused without a valid session (api_needs_session, ignore_list_within_exceptions, "
+              "no_api_path_is_static); a visitor reaches no mutating handler (visitor_readonly); a developer reaches no "
+              "user-management or transfer handler (developer_no_user_admin_no_transfer); lower role => higher role on "
+              "every registered route (role_monotone); unknown role strings grant nothing, several roles are the union, "
+              "a positive decision always stems from a concrete grant entry and no grant is a wildcard "
+              "(unknown_role_nothing, multi_role_is_union, unlisted_unreachable, no_wildcard_grants). Tie: exhaustive "
+              "product of paths x methods x role sets through the real UserRole::match_url_by_roles, and every route x "
+              "session state x spelling through the real CheckLogin middleware around console_config in-process."),
+        note=("trusted: Lean kernel; translator; hand model RNacos/Model/Auth.lean; the mutating/admin-only "
+              "classification of handlers is a hand-written oracle by handler name (DESIGN.md App. C); sessions are "
+              "injected into the cache actor, the login flow is not exercised"),
+        technique="Lean 4 theorem (decide +kernel over generated tables) + exhaustive differential correspondence"),
 }
 
 PENDING_REASON = ("not yet built in this session (planned, see DESIGN.md §9); no claim is made until its theorems and "
